@@ -16,6 +16,7 @@ from rattr.results import IrTarget
 
 if TYPE_CHECKING:
     from rattr.ast.types import Identifier
+    from rattr.models.ir import FileIr
     from rattr.results import IrCall, IrEnvironment
 
 
@@ -178,7 +179,10 @@ def __resolve_target_and_ir(
     if symbol is None:
         raise ImportError
 
-    if symbol in environment.target_ir:
+    # NOTE
+    # Symbol equality ignores the location, so a function of an imported module must
+    # not be mistaken for a same-named function of the target file.
+    if __is_defined_in(symbol, environment.target_ir):
         return IrTarget(symbol=symbol, ir=environment.target_ir[symbol])
 
     filename = symbol.location.defined_in
@@ -195,6 +199,13 @@ def __resolve_target_and_ir(
         raise ImportError
 
     return IrTarget(symbol=symbol, ir=module_ir[symbol])
+
+
+def __is_defined_in(symbol: Func | Class, file_ir: FileIr) -> bool:
+    return any(
+        symbol == other and symbol.location.defined_in == other.location.defined_in
+        for other in file_ir
+    )
 
 
 def __resolve_real_class_target(
